@@ -168,9 +168,11 @@ _NEED = {
         "+ (y - m) * (w * r / (x1 * q)).ln()",
         "y as u64",
     ],
-    "exponential.rs": ["-self.rng.sample().ln() / self.lambda", "rng: Uniform::new(0., 1.),"],
-    "gumbel.rs": ["self.mu - self.beta * (-self.uniform_gen.sample().ln()).ln()", "uniform_gen: Uniform::new(0., 1.),"],
-    "pareto.rs": ["let u = alea::f64();", "self.minval / u.powf(1. / self.alpha)"],
+    "exponential.rs": ["let mut u = self.rng.sample();", "while u == 0. {", "u = self.rng.sample();", "-u.ln() / self.lambda",
+                       "rng: Uniform::new(0., 1.),"],
+    "gumbel.rs": ["let mut u = self.uniform_gen.sample();", "while u == 0. {", "u = self.uniform_gen.sample();",
+                  "self.mu - self.beta * (-u.ln()).ln()", "uniform_gen: Uniform::new(0., 1.),"],
+    "pareto.rs": ["let mut u = alea::f64();", "while u == 0. {", "u = alea::f64();", "self.minval / u.powf(1. / self.alpha)"],
     "uniform.rs": ["let width = self.upper - self.lower;", "let u = alea::f64();", "if width.is_finite() {",
                    "width * u + self.lower", "self.lower * (1. - u) + self.upper * u"],
     "discreteuniform.rs": ["if self.lower == self.upper {", "alea::i64_in_range(self.lower, self.upper) as f64"],
@@ -283,6 +285,9 @@ ASSUMPTIONS = [
 ]
 ALPHA = 1e-12
 I64MAX = 2 ** 63 - 1
+WY_INC = 0xa0761d6478bd642f
+# alea::set_seed(s): the k-th raw word is wyMix(s + k * WY_INC); it is 0 (so f64() = 0.0) exactly when s + k * WY_INC = 0 mod 2^64
+ZERO_SEEDS = [(0x5F89E29B87429BD1 - k * WY_INC) % 2 ** 64 for k in range(4)]
 
 
 def dkw_eps(n):
@@ -801,6 +806,7 @@ def strata(rng, tier, count):
     lines = []
     quick = tier == "quick"
     nq = 100000 if quick else 1000000
+    kq = KQ if quick else KQ_THOROUGH
     # 1 + 3: special values and threshold bands: a 300-draw tie line each (two seeds in thorough), a route line for a
     # rotating quarter, and the DKW summary
     sp = special_cases()
@@ -818,7 +824,7 @@ def strata(rng, tier, count):
             count("special:route:%s" % route)
         qpar = rng.randint(0, 1)
         if flag != TIE_ONLY and regime(dist, ps) != "range>=2^63" and (not quick or j % 2 == qpar):
-            lines.append(q_line(dist, rng.u64(), nq, KQ, ps))
+            lines.append(q_line(dist, rng.u64(), nq, kq, ps))
             count("special:q:%s:%s" % (dist, rg))
     # 2: size boundaries of sample_n / sample_matrix
     for j, n in enumerate(BULK_SMALL):
@@ -832,7 +838,7 @@ def strata(rng, tier, count):
             if not quick or k == j % 3:
                 lines.append(s_line(dist, rng.u64(), n, ps))      # tie on the bulk route
                 count("bulk:sample_n:%d" % n)
-            lines.append(q_line(dist, rng.u64(), n, KQ, ps))       # count + DKW on the bulk route
+            lines.append(q_line(dist, rng.u64(), n, kq, ps))       # count + DKW on the bulk route
             count("bulk:q:%d" % n)
     for j, (r, c) in enumerate(SHAPES_SMALL):
         dist, ps = BULK_DISTS[j % len(BULK_DISTS)]
@@ -880,7 +886,7 @@ def strata(rng, tier, count):
                 lines.append("mvns" + mvn_line(rng.u64(), n, mean, cov)[3:])
                 count("mvn:%s:bulk+single" % lab)
             if d >= 2 and lab in ("tridiagonal", "[[4,1.5],[1.5,1]]", "equicorrelated") and (not quick or (d + j) % 2 == 0):
-                lines.append(qmvn_line(rng, rng.u64(), nq, mean, cov, KQ))
+                lines.append(qmvn_line(rng, rng.u64(), nq, mean, cov, kq))
                 count("qmvn:%s" % lab)
         # scale pair
         seed = rng.u64()
@@ -901,6 +907,7 @@ def ctor_routes(rng, tier, count):
     lines = []
     quick = tier == "quick"
     nq = 100000 if quick else 1000000
+    kq = KQ if quick else KQ_THOROUGH
     others = {}
     for dist, ps in cases(rng.fork("targets"), tier):
         if regime(dist, ps) != "degenerate" and ps != DEFAULTS[dist] and not (dist == "binomial" and ps[0] > 2 ** 53):
@@ -921,7 +928,7 @@ def ctor_routes(rng, tier, count):
             rest = [c for c in ctors if c not in qs and c != "new"]
             qs += rest if not quick else [rest[(j + gi) % len(rest)]]
             for ctor in qs:
-                lines.append(cq_line(ctor, dist, rng.u64(), nq, KQ, ps))
+                lines.append(cq_line(ctor, dist, rng.u64(), nq, kq, ps))
                 count("ctor-dkw:%s:%s" % (dist, ctor))
     return lines
 
@@ -968,7 +975,8 @@ def qmvn_line(rng, seed, n, mean, cov, k):
                                              len(fs), " ".join(parts), k)
 
 
-KQ = 2000
+KQ = 2000            # recorded order statistics per DKW line (quick); the bound computed from them can be below the true
+KQ_THOROUGH = 8000   # sup-distance by at most 1/K (5e-4 quick = 6 % of the band; 1.25e-4 thorough = 6.5 % of the n = 4e6 band)
 
 
 def corpus():
@@ -1014,6 +1022,13 @@ def corpus():
         cq_line("default", "chi2", 11, 50000, KQ, [1]), cq_line("default.clone", "chi2", 11, 50000, KQ, [1]),
         c_line("new", "chi2", 11, 50, [1]), c_line("default", "chi2", 11, 50, [1]),
         cq_line("default", "beta", 11, 50000, KQ, [1.0, 1.0]), cq_line("default", "t", 11, 50000, KQ, [1.0]),
+        # F53 (fixed): the uniform draw is exactly 0 at these states; Exponential / Pareto / Gumbel returned +inf / +inf / -inf
+        s_line("exp", ZERO_SEEDS[0], 3, [1.0]), s_line("pareto", ZERO_SEEDS[0], 3, [2.0, 1.0]), s_line("gumbel", ZERO_SEEDS[0], 3, [0.0, 1.0]),
+        s_line("exp", ZERO_SEEDS[2], 5, [1.0]), s_line("pareto", ZERO_SEEDS[1], 5, [2.0, 1.0]), s_line("gumbel", ZERO_SEEDS[3], 5, [0.0, 1.0]),
+        r_line("single", "exp", ZERO_SEEDS[0], 3, [0.5]), c_line("default", "exp", ZERO_SEEDS[0], 3, [1.0]),
+        c_line("new", "exp", ZERO_SEEDS[0], 3, [1.0]),
+        # T::new(5e-324) is accepted (dof > 0) but `Gamma::new(dof / 2., 1.)` inside sample() panics: dof / 2 rounds to 0
+        s_line("t", 1, 3, [5e-324]),
         # open finding du:panic:range>=2^63 (dependency alea: hi + 1 - lo overflows i64)
         s_line("du", 7, 5, [0, I64MAX]), s_line("du", 7, 5, [-2 ** 62, 2 ** 62]),
     ]
@@ -1028,6 +1043,7 @@ def gen(rng, tier):
 
     nseeds = 5 if tier == "quick" else 20
     nq = 200000 if tier == "quick" else 4000000
+    kq = KQ if tier == "quick" else KQ_THOROUGH
     qseeds = 1 if tier == "quick" else 2
     cs = cases(rng.fork("cases"), tier)
     if tier != "quick":
@@ -1041,7 +1057,7 @@ def gen(rng, tier):
         lines.append(m_line(dist, rng.u64(), r, c, ps))
         count("m:%s" % dist)
         for _ in range(qseeds):
-            lines.append(q_line(dist, rng.u64(), nq, KQ, ps))
+            lines.append(q_line(dist, rng.u64(), nq, kq, ps))
             count("q:%s:%s" % (dist, rg))
     # objects reached through update / setters (judged exactly like the fresh object with the target parameters)
     hs = histories(rng.fork("hist"), tier)
@@ -1054,18 +1070,32 @@ def gen(rng, tier):
             count("h:%s:%s" % (dist, MODES[mode]))
         # DKW after the history: every mode in thorough, one rotating mode per pair in quick
         for mode in (modes if tier != "quick" else [modes[j % len(modes)]]):
-            lines.append(hq_line(mode, dist, rng.u64(), nq if tier == "quick" else nq // 4, KQ, init, ps))
+            lines.append(hq_line(mode, dist, rng.u64(), nq if tier == "quick" else nq // 4, kq, init, ps))
             count("hq:%s:%s" % (dist, MODES[mode]))
     lines += strata(rng.fork("strata"), tier, count)
     lines += ctor_routes(rng.fork("ctor"), tier, count)
     for dist, ps in INVALID:
         lines.append(s_line(dist, rng.u64(), 3, ps))
         count("invalid-params")
-    # special seeds
-    for seed in (0, 1, 2 ** 64 - 1, 0x5F89E29B87429BD1):
-        for dist, ps in [("normal", [0.0, 1.0]), ("gamma", [0.5, 1.0]), ("poisson", [20.0]), ("binomial", [500, 0.3])]:
+    # special seeds, EVERY distribution: 0, 1, 2^64 - 1, and the states whose 1st / 2nd / 3rd / 4th raw word is 0 (the
+    # uniform is then exactly 0: F53): seed = 0x5F89E29B87429BD1 - k * increment (mod 2^64).  Judged by the tie, the
+    # support and point-mass checks, and — on the long line — the DKW criterion.
+    special = [("normal", [0.0, 1.0]), ("gamma", [0.5, 1.0]), ("gamma", [2.5, 1.0]), ("beta", [0.5, 2.0]), ("chi2", [1]), ("chi2", [5]),
+               ("t", [1.5]), ("t", [7.0]), ("poisson", [3.0]), ("poisson", [20.0]), ("binomial", [20, 0.3]), ("binomial", [500, 0.3]),
+               ("binomial", [500, 0.8]), ("exp", [1.0]), ("gumbel", [0.0, 1.0]), ("pareto", [2.0, 1.0]), ("uniform", [-1.0, 3.0]),
+               ("uniform", [-1e308, 1e308]), ("du", [-3, 8]), ("bern", [0.3])]
+    for seed in [0, 1, 2 ** 64 - 1] + ZERO_SEEDS:
+        for dist, ps in special:
             lines.append(s_line(dist, seed, 200, ps))
             count("s:special-seed")
+    for j, (dist, ps) in enumerate(special):
+        for seed in (ZERO_SEEDS if tier != "quick" else [ZERO_SEEDS[j % len(ZERO_SEEDS)]]):
+            lines.append(q_line(dist, seed, 100000 if tier == "quick" else 1000000, kq, ps))
+            count("q:special-seed")
+    for seed in ZERO_SEEDS:
+        mean, cov = spd(rng, 2)
+        lines.append(mvn_line(seed, 20, mean, cov))
+        count("mvn:special-seed")
     # multivariate normal
     for d in range(1, 7):
         for _ in range(2 if tier == "quick" else 6):
@@ -1073,7 +1103,7 @@ def gen(rng, tier):
             lines.append(mvn_line(rng.u64(), rng.randint(1, 300), mean, cov))
             count("mvn:d=%d" % d)
         mean, cov = spd(rng, d)
-        lines.append(qmvn_line(rng, rng.u64(), nq if tier == "quick" else nq // 4, mean, cov, KQ))
+        lines.append(qmvn_line(rng, rng.u64(), nq if tier == "quick" else nq // 4, mean, cov, kq))
         count("qmvn:d=%d" % d)
     # number of draws compared with the model (every line is two-sided), per sampler
     for l in lines:
@@ -1116,6 +1146,13 @@ def check_support(dist, ps, xs):
     return None
 
 
+def support_key(dist, ps, rg, msg):
+    """stable key of a support failure; Student t with dof < 2 dividing by a gamma variate that is exactly 0 gets its own key"""
+    if dist == "t" and ps[0] < 2.0 and "inf" in msg:
+        return "t:support:inf:dof<2" + rg[rg.index(":"):] if ":" in rg else "t:support:inf:dof<2"
+    return "%s:support:%s" % (dist, rg)
+
+
 def oracle(lines, impl):
     fails = []
     for i, (l, rep) in enumerate(zip(lines, impl)):
@@ -1151,6 +1188,8 @@ def oracle(lines, impl):
             fails.append(Failure(i, "%s:termination:%s" % (dist, rg), "sampling %s%r did not return within the wall-clock cap" % (dist_shown, ps)))
             continue
         if st != "ok":
+            if dist == "t" and ps[0] / 2.0 == 0.0:
+                rg = "dof-underflow"      # dof > 0 passes T::new, dof / 2. == 0 fails Gamma::new inside sample()
             fails.append(Failure(i, "%s:panic:%s" % (dist, rg), "sampling %s%r with valid parameters: %s" % (dist_shown, ps, rep[:80])))
             continue
         if op == "s":
@@ -1160,7 +1199,7 @@ def oracle(lines, impl):
                 continue
             msg = check_support(dist, ps, xs)
             if msg:
-                fails.append(Failure(i, "%s:support:%s" % (dist, rg), "%s%r seed %d: %s" % (dist_shown, ps, o["seed"], msg)))
+                fails.append(Failure(i, support_key(dist, ps, rg, msg), "%s%r seed %d: %s" % (dist_shown, ps, o["seed"], msg)))
             pm = point_mass(dist, ps)
             if pm is not None and any(x != pm for x in xs):
                 fails.append(Failure(i, "%s:dkw:%s" % (dist, rg), "%s%r is the point mass at %r but a draw differs" % (dist_shown, ps, pm)))
@@ -1172,7 +1211,7 @@ def oracle(lines, impl):
                 continue
             msg = check_support(dist, ps, [h2f(x) for x in toks[2:-1]])
             if msg:
-                fails.append(Failure(i, "%s:support:%s" % (dist, rg), "%s%r seed %d: %s" % (dist_shown, ps, o["seed"], msg)))
+                fails.append(Failure(i, support_key(dist, ps, rg, msg), "%s%r seed %d: %s" % (dist_shown, ps, o["seed"], msg)))
         elif op == "q":
             n = o["n"]
             ln, nan, nonint = int(toks[0]), int(toks[1]), int(toks[2])
@@ -1190,7 +1229,7 @@ def oracle(lines, impl):
             elif integer and nonint:
                 bad = "%d of %d draws of a discrete law are not integers" % (nonint, n)
             if bad:
-                fails.append(Failure(i, "%s:support:%s" % (dist, rg), "%s%r seed %d: %s" % (dist_shown, ps, o["seed"], bad)))
+                fails.append(Failure(i, support_key(dist, ps, rg, bad), "%s%r seed %d: %s" % (dist_shown, ps, o["seed"], bad)))
                 continue
             if n == 0:
                 continue
